@@ -115,7 +115,8 @@ class FucSpec:
                  exc_parents=None, exc_alias=None, subclass_of=None, subclass_of_closed=(), classes=(), absent_attrs=(),
                  getattr_hooks=None, setattr_hooks=None, hasattr_hooks=None, attr_hooks=None, subscript_hook=None,
                  on_yield=None, on_yield_from=None, max_paths=4000, replay=None, cover=(), trusted=(), note='', opts=None, clause='',
-                 field_alias=None):
+                 field_alias=None, falsy_classes=()):
+        self.falsy_classes = set(falsy_classes)
         self.field_alias = dict(field_alias or {})
         self.prop, self.file, self.qual = prop, file, qual
         self.name = name or qual
